@@ -294,6 +294,7 @@ func c09(c *Ctx) {
 	c09labels(c)
 	c09inputs(c)
 	c09values(c)
+	c09noPartialApply(c)
 	if fn := c.Fn(batchPkg, "Plugin", "Calculate"); fn != nil {
 		c09degrade(c, fn, batchPkg)
 		if mf := c.Fn(midPkg, "Plugin", "Calculate"); mf != nil {
